@@ -52,6 +52,7 @@ PINNED = {
     "stroke_width_zero": '<svg xmlns="http://www.w3.org/2000/svg" viewBox="0 0 20 20"><path d="M2,2 L18,2 L18,18 Z" fill="none" stroke="red" stroke-width="0"/><rect x="1" y="12" width="4" height="4" fill="blue"/></svg>',
     "stroke_opacity_above_one": '<svg xmlns="http://www.w3.org/2000/svg" viewBox="0 0 20 20"><path d="M2,10 L18,10" fill="none" stroke="red" stroke-width="4" stroke-opacity="1.5" opacity="0.5"/><rect x="1" y="14" width="4" height="4" fill="blue" fill-opacity="3" opacity="0.5"/></svg>',
     "stroke_gradient_under_transform": '<svg xmlns="http://www.w3.org/2000/svg" viewBox="0 0 100 100"><defs><linearGradient id="g" gradientUnits="userSpaceOnUse" x1="0" x2="40"><stop offset="0" stop-color="red"/><stop offset="1" stop-color="blue"/></linearGradient></defs><g transform="translate(50 0)"><path d="M0,22 L40,22" fill="none" stroke="url(#g)" stroke-width="10"/></g></svg>',
+    "clippath_written_inside_an_opacity_group": '<svg xmlns="http://www.w3.org/2000/svg" viewBox="0 0 20 20"><g opacity="0.5"><rect width="9" height="9" fill="red" clip-path="url(#inner)"/><clipPath id="inner"><rect width="5" height="20"/></clipPath></g></svg>',
     "clip_rule_on_the_clippath": '<svg xmlns="http://www.w3.org/2000/svg" viewBox="0 0 10 10"><clipPath id="c" clip-rule="evenodd"><path d="M0,0 H8 V8 H0 Z M2,2 H6 V6 H2 Z"/></clipPath><rect width="9" height="9" clip-path="url(#c)" fill="red"/></svg>',
     "use_clip_target_transform": '<svg xmlns="http://www.w3.org/2000/svg" xmlns:xlink="http://www.w3.org/1999/xlink" viewBox="0 0 30 30"><clipPath id="c"><rect width="10" height="10"/></clipPath><defs><rect id="t" width="20" height="20" transform="translate(5 0)"/></defs><use xlink:href="#t" clip-path="url(#c)"/></svg>',
     "two_nested_svgs_clip_ids": f'<svg {NS} viewBox="0 0 100 100"><svg x="0" y="0" width="40" height="40"><rect width="60" height="60" fill="red"/></svg><svg x="50" y="50" width="40" height="40"><rect width="60" height="60" fill="blue"/></svg></svg>',
